@@ -292,6 +292,10 @@ func (t *collationSortedTree[K, V]) Prefix(p K) iter.Seq2[K, V] {
 }
 
 func (t *collationSortedTree[K, V]) Range(start, end K) iter.Seq2[K, V] {
+	if t.root.pointer == nil {
+		return func(yield func(K, V) bool) {}
+	}
+
 	if len(end) == 0 {
 		end, _ = t.restoreKey(maximum[V](t.root))
 	}
